@@ -365,7 +365,7 @@ func (w *worker) both(data []byte, mode string) {
 var alphabet = []byte{0x00, 0x01, 0x08, 0x09, 0x0d, 0x10, 0x40, 0x41, 0x48, 0x49, 0xd1, 0xe0, 0xf0, 0xff, 0x2c}
 
 func TestRun(t *testing.T) {
-	rec := vr.New("C02", "inputs: (i) every byte string of length <= 4 (quick) / <= 5 (thorough) over a 15-symbol alphabet of structurally interesting bytes, prefixed for the datagram coder also with each of 4 valid 4-byte headers; (ii) every first byte 0..255 x PRNG tails of 0..40 bytes; (iii) mutations of valid encodings from the C01 generator: truncation at every offset, every single-bit flip in the first 24 bytes, boundary-value substitution at every offset, splices, inserted/duplicated ranges, trailing garbage after a complete stream frame; (iv) 32-bit extended stream lengths near 2^32; (v) a sample of all of these through udp Conn.Process on a live in-memory connection. Both coders, header pre-parser, pooled API on fresh/recycled messages. Distinct = distinct inputs (hashed); non-trivial = every input (each is compared with the reference).")
+	rec := vr.New("C02", "inputs: (i) every byte string of length <= 4 (quick) / <= 5 (thorough) over a 15-symbol alphabet of structurally interesting bytes, prefixed for the datagram coder also with each of 4 valid 4-byte headers; (ii) every first byte 0..255 x PRNG tails of 0..40 bytes; (iii) mutations of valid encodings from the C01 generator: truncation at every offset, every single-bit flip in the first 24 bytes, boundary-value substitution at every offset, splices, inserted/duplicated ranges, trailing garbage after a complete stream frame; (iv) 32-bit extended stream lengths near 2^32; (vi) option-length grid: 26 option numbers x 16 value lengths x 10 codes incl. the stream signalling codes 7.01-7.05; (v) a sample of all of these through udp Conn.Process on a live in-memory connection. Both coders, header pre-parser, pooled API on fresh/recycled messages. Distinct = distinct inputs (hashed); non-trivial = every input (each is compared with the reference).")
 	defer rec.Flush(true)
 	seed := vr.Seed()
 	nw := runtime.GOMAXPROCS(0)
@@ -622,6 +622,48 @@ func TestRun(t *testing.T) {
 	rec.EvalN(allCount.Load(), "")
 	rec.Count("decoder_comparisons", allCount.Load())
 	rec.Count("accepted_by_both", accCount.Load())
+
+	// (vi) option-length grid: one or two options of every known (and some unknown) number with value lengths around every
+	// limit of every registry, under ordinary codes and under each stream signalling code (which have registries of their own)
+	{
+		gridCodes := []uint8{0x01, 0x02, 0x45, 0x84, 7<<5 | 1, 7<<5 | 2, 7<<5 | 3, 7<<5 | 4, 7<<5 | 5, 7<<5 | 6}
+		gridIDs := []uint16{1, 2, 3, 4, 5, 6, 7, 8, 9, 10, 11, 12, 14, 15, 17, 20, 23, 27, 28, 35, 39, 60, 258, 259, 2049, 65000}
+		gridLens := []int{0, 1, 2, 3, 4, 5, 8, 9, 12, 13, 14, 255, 256, 269, 1034, 1035}
+		type gj struct {
+			code uint8
+			id   uint16
+			l    int
+		}
+		var grid []gj
+		for _, cd := range gridCodes {
+			for _, id := range gridIDs {
+				for _, l := range gridLens {
+					grid = append(grid, gj{cd, id, l})
+				}
+			}
+		}
+		run(func(w *worker, id int) {
+			rnd := rand.New(rand.NewSource(seed*37 + int64(id)))
+			for k := id; k < len(grid); k += nw {
+				g := grid[k]
+				val := gen.Fill(rnd, g.l)
+				m := ref.Msg{Code: g.code, Token: gen.Fill(rnd, rnd.Intn(3)), Opts: []ref.Opt{{ID: g.id, Val: val}}}
+				w.checkTCP(ref.EncodeTCP(m), "option-length-grid")
+				// with a legal neighbour in front and a payload behind
+				m2 := ref.Msg{Code: g.code, Token: m.Token, Opts: []ref.Opt{{ID: 1, Val: []byte{9}}, {ID: g.id, Val: val}}, Payload: []byte("p")}
+				if g.id == 1 {
+					m2.Opts = m2.Opts[1:]
+				}
+				w.checkTCP(ref.EncodeTCP(m2), "option-length-grid")
+				if g.code>>5 != 7 {
+					m.Type, m.MID = uint8(k%4), uint16(k)
+					w.checkUDP(ref.EncodeUDP(m), "option-length-grid")
+				}
+			}
+		})
+		rec.Count("option_length_grid_inputs", int64(len(grid)*2))
+		rec.DistinctAdd(int64(len(grid) * 2))
+	}
 
 	// (v) datagram entry point of a live connection
 	s := sim.NewMemSession()
